@@ -110,9 +110,9 @@ func C03(c *core.Ctx) {
 	for _, f := range []string{"a.env", "b.env", "a.label"} {
 		_ = os.WriteFile(filepath.Join(work, f), []byte("FROMFILE=1\n"), 0o644)
 	}
-	cfg := "SPECIFICATION Spec\nCONSTANTS Wide = TRUE\nINVARIANTS Laws\nCHECK_DEADLOCK FALSE\n"
+	cfg := "SPECIFICATION Spec\nCONSTANTS Wide = TRUE\n BigLists = FALSE\nINVARIANTS Laws\nCHECK_DEADLOCK FALSE\n"
 	if !c.Quick() {
-		cfg = "SPECIFICATION Spec\nCONSTANTS Wide = TRUE\nINVARIANTS Laws\nCHECK_DEADLOCK FALSE\n"
+		cfg = "SPECIFICATION Spec\nCONSTANTS Wide = TRUE\n BigLists = TRUE\nINVARIANTS Laws\nCHECK_DEADLOCK FALSE\n"
 	}
 	dump := filepath.Join(c.Work, "cases")
 	r, err := c.RunTLC(core.TLCOpts{Module: "MC_Canonical", CfgText: cfg, Dump: dump, Timeout: 60 * time.Minute, Name: "canonical"})
@@ -178,6 +178,24 @@ func C03(c *core.Ctx) {
 			ds, dl := projDump(ps), projDump(pl)
 			if ds != dl {
 				c.Report(core.Finding{Sig: "differs:" + name, Detail: fmt.Sprintf("%s: short form %s and its long form load to different models: %s", name, shortTxt, firstDiff(ds, dl)), Replay: rep})
+			}
+			// a later file refining one element in long syntax: the two spellings must still denote the same model
+			if ov, ok := cs["over"]; ok && asStr(asMap(ov)["t"]) != "n" {
+				overDoc := docWith(path, plainOf(ov))
+				c.Eval(name+"|over|"+string(shortTxt), true)
+				pso, eso := safeLoad(work, nil, []namedDoc{{Name: filepath.Join(work, "compose.yaml"), Content: shortDoc}, {Name: filepath.Join(work, "over.yaml"), Content: overDoc}})
+				plo, elo := safeLoad(work, nil, []namedDoc{{Name: filepath.Join(work, "compose.yaml"), Content: longDoc}, {Name: filepath.Join(work, "over.yaml"), Content: overDoc}})
+				rep["override"] = plainOf(ov)
+				switch {
+				case (eso == nil) != (elo == nil):
+					c.Report(core.Finding{Sig: "override-differs:" + name, Detail: fmt.Sprintf("%s: with a later file refining one element, the short form gives %v and the long form gives %v", name, eso, elo), Replay: rep})
+				case eso == nil:
+					sortPorts(pso)
+					sortPorts(plo)
+					if a, b := projDump(pso), projDump(plo); a != b {
+						c.Report(core.Finding{Sig: "override-differs:" + name, Detail: fmt.Sprintf("%s: short form %s and its long form load to different models once a later file refines one element: %s", name, shortTxt, firstDiff(a, b)), Replay: rep})
+					}
+				}
 			}
 		}
 		return nil
